@@ -15,16 +15,25 @@ import (
 	"context"
 	"encoding/binary"
 	"encoding/hex"
+	"sync"
+	"time"
+
+	"github.com/ethereum/go-ethereum/common"
+	"github.com/libp2p/go-libp2p/core/peer"
 
 	eth2apiv1 "github.com/attestantio/go-eth2-client/api/v1"
 	"github.com/attestantio/go-eth2-client/spec/phase0"
 	spectypes "github.com/bloxapp/ssv-spec/types"
 	"go.uber.org/zap"
 
-	"github.com/bloxapp/ssv/operator/duties"
+	ibftstorage "github.com/bloxapp/ssv/ibft/storage"
+	"github.com/bloxapp/ssv/network"
+	"github.com/bloxapp/ssv/networkconfig"
 	operatordatastore "github.com/bloxapp/ssv/operator/datastore"
+	"github.com/bloxapp/ssv/operator/duties"
 	"github.com/bloxapp/ssv/operator/validatorsmap"
 	beaconprotocol "github.com/bloxapp/ssv/protocol/v2/blockchain/beacon"
+	p2pprotocol "github.com/bloxapp/ssv/protocol/v2/p2p"
 	"github.com/bloxapp/ssv/protocol/v2/ssv/validator"
 	ssvtypes "github.com/bloxapp/ssv/protocol/v2/types"
 	registrystorage "github.com/bloxapp/ssv/registry/storage"
@@ -49,6 +58,8 @@ type VerifIndexController struct {
 	opID   uint64
 	keys   map[string][]byte // hex pubkey -> pubkey of every share currently stored
 }
+
+func runtimeGosched() { time.Sleep(200 * time.Microsecond) }
 
 func verifPubKey(index uint64) []byte {
 	pk := make([]byte, 48)
@@ -80,6 +91,9 @@ func VerifNewIndexController(opID uint64) (*VerifIndexController, error) {
 	}
 	return &VerifIndexController{c: c, db: db, shares: shares, opID: opID, keys: map[string][]byte{}}, nil
 }
+
+// VerifRunningValidators: size of the validators map (validators that setupValidators / onShareStart have created).
+func (v *VerifIndexController) VerifRunningValidators() int { return v.c.validatorsMap.Size() }
 
 // Controller is the real controller as the scheduler's ValidatorController.
 func (v *VerifIndexController) Controller() duties.ValidatorController { return v.c }
@@ -136,4 +150,78 @@ func (v *VerifIndexController) SetShares(list []VerifShare) error {
 		}
 	}
 	return nil
+}
+
+// ---- the real StartValidators, with a slow set-up ----
+
+// verifRecipients: fee-recipient storage whose lookup (called by onShareInit for every own share during
+// setupValidators) blocks until the harness opens the gate: a slow set-up.
+type verifRecipients struct {
+	gate    chan struct{}
+	mu      sync.Mutex
+	lookups int
+}
+
+func (r *verifRecipients) GetRecipientData(basedb.Reader, common.Address) (*registrystorage.RecipientData, bool, error) {
+	r.mu.Lock()
+	r.lookups++
+	r.mu.Unlock()
+	<-r.gate
+	return nil, false, nil
+}
+
+type verifNet struct{}
+
+func (verifNet) Broadcast(*spectypes.SSVMessage) error                     { return nil }
+func (verifNet) UseMessageRouter(network.MessageRouter)                    {}
+func (verifNet) Peers(spectypes.ValidatorPK) ([]peer.ID, error)            { return nil, nil }
+func (verifNet) SubscribeRandoms(*zap.Logger, int) error                   { return nil }
+func (verifNet) RegisterHandlers(*zap.Logger, ...*p2pprotocol.SyncHandler) {}
+
+// VerifStartSlowSetup makes the registry contain `list`, empties the validators map, re-opens the
+// committeeValidatorSetup gate and runs the REAL StartValidators in a goroutine; its setupValidators blocks in the first
+// fee-recipient lookup until `release()` is called. `started` is closed once that lookup is reached (or StartValidators
+// returned), `done` when StartValidators returned.
+func (v *VerifIndexController) VerifStartSlowSetup(list []VerifShare) (started, done chan struct{}, release func(), err error) {
+	if err = v.SetShares(list); err != nil {
+		return
+	}
+	for k := range v.keys {
+		v.c.validatorsMap.RemoveValidator(k) // node start: no validator is running yet
+	}
+	rec := &verifRecipients{gate: make(chan struct{})}
+	v.c.recipientsStorage = rec
+	v.c.committeeValidatorSetup = make(chan struct{})
+	v.c.metrics = validator.NopMetrics{}
+	v.c.network = verifNet{}
+	v.c.validatorStartFunc = func(*validator.Validator) (bool, error) { return true, nil }
+	v.c.validatorOptions = validator.Options{
+		BeaconNetwork: networkconfig.TestNetwork.Beacon,
+		Storage:       ibftstorage.NewStores(),
+	}
+	started, done = make(chan struct{}), make(chan struct{})
+	go func() {
+		defer close(done)
+		v.c.StartValidators()
+	}()
+	go func() { // reached the first lookup, or finished without any
+		defer close(started)
+		for {
+			rec.mu.Lock()
+			n := rec.lookups
+			rec.mu.Unlock()
+			if n > 0 {
+				return
+			}
+			select {
+			case <-done:
+				return
+			default:
+			}
+			runtimeGosched()
+		}
+	}()
+	var once sync.Once
+	release = func() { once.Do(func() { close(rec.gate) }) }
+	return
 }
